@@ -663,7 +663,19 @@ func (x *X) unary(f *Frame, st *State, n *ast.UnaryExpr) Value {
 	case token.AND:
 		return x.addrOf(f, st, n)
 	case token.ARROW:
-		fail("channel receive unsupported")
+		if !x.c.abstract {
+			fail("channel receive unsupported")
+		}
+		// abstract mode: the received value is arbitrary; blocking and the sender side are not modelled
+		x.c.assumption("channel receive yields an arbitrary value of the element type; blocking is not modelled")
+		x.expr(f, st, n.X)
+		if t := f.info.TypeOf(n); t != nil {
+			if tup, ok := t.(*types.Tuple); ok {
+				t = tup.At(0).Type()
+			}
+			return x.c.freshValue("recv", t)
+		}
+		return Value{}
 	}
 	v := x.expr(f, st, n.X)
 	if v.C == nil && v.K != nil {
